@@ -891,6 +891,7 @@ def run(ctx):
     def base_kind(c):
         return kind_of.get(c["ci"] - 2000000) if c["kind"] == "restart" else c["kind"]
 
+    skipped_per_request = {}
     for ri, c in enumerate(rows):
         if base_kind(c) in MULTI_KINDS:
             # multi-request histories: the whole history against the multi-request model (shared
@@ -899,7 +900,17 @@ def run(ctx):
                 t, idx = project_multi(c, side)
                 mterms.append(t)
                 mback.append((ri, side, "all", idx))
+            # catch-up histories contain `rewind` BLOCK steps (one observed call = a list of
+            # model calls; intermediate hints / event boundaries are not observable), which the
+            # per-request checker Exec.check_case cannot express: they are covered by the
+            # multi-request block checker (MExec.TMConfB / TMSpendB) + catchup_predicate only
+            if base_kind(c) in BLOCK_KINDS:
+                skipped_per_request["block-step kind (covered by MExec block steps)"] = \
+                    skipped_per_request.get("block-step kind (covered by MExec block steps)", 0) + 1
+                continue
             if not ctx.thorough:
+                skipped_per_request["multi-request kind, quick tier (subsumed by MExec)"] = \
+                    skipped_per_request.get("multi-request kind, quick tier (subsumed by MExec)", 0) + 1
                 continue
         # enumerated histories (and their restart observation) only touch T0 / outpoint 0
         enum = base_kind(c) == "enum"
@@ -1011,6 +1022,7 @@ def run(ctx):
         "multi_request_clients_per_request_hist(5=5+)": clients_per_req,
         "evaluations": len(terms) + len(mterms),
         "evaluations_per_request_model": len(terms),
+        "cases_not_projected_per_request": skipped_per_request,
         "evaluations_multi_request_model": len(mterms),
         "distinct_nontrivial": distinct_count([c for c in rows if len(c["ops"]) > 5],
                                               lambda c: [o["op"] for o in c["ops"]]),
